@@ -179,3 +179,21 @@ def run_tc(repo,seed,tier,procs=16):
          f"a runtime width mismatch between explicitly sized operands => rejected ({sum(r['accepted'] for r in res)} accepted)")
   return [dict(key="zoo::typecheck",ok=True,error=None,obligations=[],kind='bounded-standin',lines=None,ast_hash=None,info=None,time=sum(r['time'] for r in res),is_standin=True,
                standin=dict(evaluations=len(res),failures=fails,bound=bound,per_case={}))]
+
+def run_tr(which,repo,seed,tier):
+  from zoo import trcheck
+  t0=time.time(); parts=[]
+  if which=='C12':
+    parts=[('portmap',trcheck.check_portmap)]
+    bound="flat port map of YosysTranslationPass on a design with two struct-typed input and output ports (nested struct, 2-D lists of Bits, list inside a nested struct) and a 2x3 port array: every flattened leaf is connected to exactly the bit range that the real to_bits gives it (one leaf set to all ones at a time); array elements to their flattened ports"
+  else:
+    parts=[('names',trcheck.check_names),('determinism',trcheck.check_determinism)]
+    bound="module names of 5 instances of parametrised components (defaults overridden partially, a negative parameter) are legal identifiers and coincide only for equal class and construct arguments; SystemVerilog and Yosys translation of 3 designs (two nested struct types in one struct, parametrised children, struct/array ports) in fresh processes with PYTHONHASHSEED 0,1,2,3,17 is byte-identical up to comment lines; every module defined once; every instantiated module defined"
+  fails=[]; n=0
+  for nm,f in parts:
+    try: r=f(repo)
+    except Exception as e: r=[f"{nm} check could not run: {type(e).__name__}: {str(e)[:160]}"]
+    n+=1
+    fails+=[dict(args={'design':nm},failed=[m],custom=dict(kind='custom',module='zoo.replay',entry='replay_tr',which=nm)) for m in r[:6]]
+  return [dict(key=f"zoo::translation[{which}]",ok=True,error=None,obligations=[],kind='bounded-standin',lines=None,ast_hash=None,info=None,time=time.time()-t0,is_standin=True,
+               standin=dict(evaluations=n,failures=fails,bound=bound,per_case={}))]
